@@ -109,9 +109,12 @@ func verifWalk(vc verifCase, res *verifResult, settle func()) {
 	}
 	var mu sync.Mutex
 	inflight := 0
-	var wg sync.WaitGroup
 	cancelled := false
+	closed := false // set (under mu) when the result is handed back: later events are dropped
 	add := func(ev ...any) {
+		if closed {
+			return
+		}
 		res.Trace = append(res.Trace, ev)
 		if vc.CancelAfterEvents >= 0 && !cancelled && len(res.Trace) >= vc.CancelAfterEvents {
 			cancelled = true
@@ -121,8 +124,6 @@ func verifWalk(vc verifCase, res *verifResult, settle func()) {
 	}
 	callback := func(ctx context.Context, node model.BuildNode) (CacheResult, error) {
 		i := idx[node.GetLabel()]
-		wg.Add(1)
-		defer wg.Done()
 		mu.Lock()
 		inflight++
 		add("s", i)
@@ -187,9 +188,21 @@ func verifWalk(vc verifCase, res *verifResult, settle func()) {
 	for lbl, c := range cm {
 		res.Completions = append(res.Completions, [2]any{idx[lbl], c.IsSuccess})
 	}
-	settle()
-	wg.Wait()
-	settle()
+	// wait for the callbacks still in flight (Walk may have returned through ctx.Done) and give
+	// routines that hold both a ready and a cancel message the chance to choose
+	for round := 0; ; round++ {
+		settle()
+		mu.Lock()
+		n := inflight
+		mu.Unlock()
+		if n == 0 && round > 0 {
+			break
+		}
+		time.Sleep(200 * time.Microsecond)
+	}
+	mu.Lock()
+	closed = true
+	mu.Unlock()
 }
 
 // TestVerifWalkerSynctest: every case in its own bubble; a deadlock is recovered and reported.
